@@ -60,6 +60,12 @@ CLAIMED["C08"] = (
     "Trusted: lowering + if-conversion + typed runtime (validated per run: lowered kernels + transcribed initialisation give the compiled align_optimal's score on concrete vectors), the enumeration oracle, z3. The wrapper's table initialisation and trace post-processing are transcribed (stubs) in the KX part and exercised for real only in the E-class part (i.e. on the compiled binary). Outside: sequences longer than 3, |A| > 3, code widths 32/64, matrices beyond +-2^20.",
     "DESIGN.md §4 C08")
 
+CLAIMED["C09"] = (
+    "KX: ungapped seed-extension kernels lowered from source over symbolic codes, matrix and threshold (z3 decides equality with the X-drop definition); banded / gapped X-drop / ungapped wrappers by solver-driven case split against brute-force optima",
+    "Bounded model checking. Seed extension (both kernel variants): for diagonals of length 0..4 (6), every matrix entry in +-2^20 and every threshold, the result equals the X-drop definition, its score is the prefix sum of the returned length, never exceeds the best prefix and reaches it when the threshold cannot bind. E-class on the compiled align_local_ungapped / align_local_gapped / align_banded: every small input of the menus (shapes up to 3x3, asymmetric matrices, linear/affine gaps, every seed, thresholds 0..100, directions, every band incl. reversed and partly outside, local/semi-global): valid trace, reported == recomputed score, score_only consistency, seed/direction/band containment, <= brute-force optimum and == when the band covers the table / the threshold cannot bind.",
+    "Trusted: lowering + typed runtime (validated against the compiled module per run), the brute-force oracles, z3. Only the seed-extension kernels are encoded from source; the banded and X-drop table kernels are checked through the compiled binary (E-class). Outside: sequences longer than 4, |A| > 2. Known finding: align_banded boundary gap columns.",
+    "DESIGN.md §4 C09")
+
 NOT_APPLICABLE = {
     "C15": "float results of numpy/LAPACK (linalg solves, trigonometry, argmin over float images): no integer/string logic in front of the C boundary that a solver could reason about; an abstraction over the reals would verify a model of numpy, not the code (DESIGN §6)",
     "C16": "optimality/properness come from np.linalg.svd/det (LAPACK behind FFI) on float32 data; no encodable source; z3 terms cannot pass astype(float32) (DESIGN §6)",
